@@ -219,6 +219,19 @@ Section Runs.
     destruct (X Hw) as (W & P1 & P2). repeat split; auto.
   Qed.
 
+  (* readable form: no accepted encodable packet is left behind — in particular a packet the encoder
+     refuses does not take the packets queued after it with it *)
+  Lemma encodable_all_arrive cs j cl : let s := run repaired s0 cs in
+    hw = true ->
+    nth_error (closers s) j = Some cl -> graceful cl = true -> cp cl = CRet true -> wbroken s = false ->
+    forall p, In p (acc_cas s) -> pok p = true -> In p (wire s).
+  Proof.
+    intros s Hw Hn Hg Hc Hb p Hin Hp.
+    destruct (close_flushes cs j cl Hw Hn Hg Hc) as (_ & _ & _ & _ & P).
+    destruct (P Hb) as [l E]. fold s in E. rewrite E. apply in_or_app. left.
+    apply filter_In. split; assumption.
+  Qed.
+
   Lemma fin_is_last cs : let s := run repaired s0 cs in
     fin s = true -> livew (wp s) = 0 /\ liver (rp s) = 0.
   Proof. intros s. exact (inv_fin_final _ _ _ (reach cs)). Qed.
